@@ -25,6 +25,11 @@ RULE = ('bodies: every concatenation of <=n pieces from {True,true,TRUE,'
         'stripped of leading/trailing double quotes is exactly True; faults '
         'propagate as exceptions.  case = one (body|fault, status, config); '
         'non-trivial = body of >=2 pieces or a fault or a nested position.')
+RULE += (
+         ' Plus histories on one enforcer: every sequence of <=3 (thorough'
+         ' 4) events from {reply True, reply False, transport fault, remove'
+         ' client cert / key / CA file, restore files}, every evaluation'
+         ' judged by the world at that moment.')
 ASSUMPTIONS = ['requests is cut at HTTPAdapter.send; a real requests.Response '
                'is built from the enumerated status/body/headers',
                'reply bytes are ASCII/0xff only (no BOMs, no exotic charsets)']
@@ -247,6 +252,76 @@ def run_faults(acc, job):
                                   {'states': list(states)}, True, got,
                                   'faults')
                 acc.outcome('tls-%s' % ('raises' if want_raise else 'ok'))
+        finally:
+            w.destroy()
+        # histories on ONE enforcer: replies, transport faults, and TLS files
+        # that vanish and come back between two evaluations of the same rule
+        # - each evaluation is judged by the world as it is at that moment
+        events = [('reply', True), ('reply', False), ('fault', None),
+                  ('rm', 'crt.pem'), ('rm', 'key.pem'), ('rm', 'ca.pem'),
+                  ('restore', None)]
+        depth = 3 if job['tier'] == 'quick' else 4
+        w = world.FileWorld()
+        try:
+            kw = {'remote_ssl_verify_server_crt': True}
+            for o, f in zip(opts3, files3):
+                kw[o] = w.path(f)
+
+            def responder2(req, kw_):
+                if cur2['fault']:
+                    raise rx.ReadTimeout('injected')
+                return 200, b'True' if cur2['answer'] else b'False', {}
+            cur2 = {}
+            stub2 = world.HttpStub(responder2)
+            stub2.__enter__()
+            try:
+                for seq in _it.product(events, repeat=depth):
+                    for f in files3:
+                        w.write(f, 'x')
+                    missing = set()
+                    enf = enforcer(**kw)
+                    world.set_rules(enf, rules)
+                    acc.case('faults', True)
+                    for step, (ev, arg) in enumerate(seq):
+                        cur2.update(fault=False, answer=True)
+                        if ev == 'reply':
+                            cur2['answer'] = arg
+                        elif ev == 'fault':
+                            cur2['fault'] = True
+                        elif ev == 'rm':
+                            if arg not in missing:
+                                w.delete(arg)
+                                missing.add(arg)
+                        else:
+                            for f in missing:
+                                w.write(f, 'x')
+                            missing.clear()
+                        acc.ev()
+                        got = world.decide(enf, 's', {}, {})
+                        if missing or cur2['fault']:
+                            ok = got[0] == 'exc'
+                            want = 'raises'
+                        else:
+                            want = ('ok', cur2['answer'])
+                            ok = got == want
+                        if not ok:
+                            acc.violation(
+                                'fault|history|%s|%s' % (
+                                    'tls-file-gone' if missing else
+                                    'transport-fault' if cur2['fault'] else
+                                    'reply', 'allows' if got == ('ok', True)
+                                    else 'denies' if got[0] == 'ok' else
+                                    'raises'),
+                                'https check after the history %r (missing '
+                                'now: %s) gives %r, expected %r' %
+                                (seq[:step + 1], sorted(missing), got, want),
+                                {'history': [list(x) for x in seq[:step + 1]]},
+                                want, got, 'faults')
+                            break
+                    acc.outcome('history-%s' % ('raises' if missing or
+                                                cur2['fault'] else 'reply'))
+            finally:
+                stub2.__exit__(None, None, None)
         finally:
             w.destroy()
         for opt in ('remote_ssl_client_crt_file', 'remote_ssl_client_key_file',
